@@ -57,6 +57,16 @@ def corr_sum_rule(rng, drv, n_cases=24, sizes=((8, 8), (5, 6), (4, 4))) -> Resul
             fast = rng.random() < 0.6
             n_batch = rng.choice([1, 2, 3, c.N, c.N, c.N]) if c.N > 1 else 1
             n_batch = min(n_batch, c.N)
+            if k % 4 == 3:
+                # "every batch non-empty" stream: few lattice points, one atom per batch — accumulation over several
+                # non-empty batches followed by ONE normalisation
+                for _ in range(50):
+                    c = abstract_cell(rng, max_N=maxN, max_nlp=2, n_shells=3, shuffle=rng.random() < 0.5)
+                    if c.N // c.n_lp >= 2:
+                        break
+                n_batch = c.N
+                fast = rng.random() < 0.8
+                res.count("every_batch_nonempty_stream")
             fc = fake_cutoff(c, cutoff) if use_cut else None
             j = c.to_json(with_cut=cutoff) if use_cut else c.to_json()
             batch_size = c.N ** (order - 1) * (c.N // n_batch)
